@@ -40,6 +40,10 @@ Proof.
   { unfold is_d_provided in Hm. apply andb_true_iff in Hm as [H1 _]. apply N.leb_le in H1.
     destruct (N.eqb_spec m 2), (N.eqb_spec m 3); try reflexivity; lia. }
   rewrite H23.
+  assert (Hbc : body_calls_of m a = body_calls a).
+  { unfold body_calls_of. unfold is_d_provided in Hm. apply andb_true_iff in Hm as [_ H2]. apply N.leb_le in H2.
+    destruct (N.eqb_spec m 24); [lia|reflexivity]. }
+  rewrite Hbc.
   match goal with |- ?loop (body_calls a) s1 armed [] = _ =>
     assert (G : forall cs st ar acc, loop cs st ar acc =
               let '(st', ar', r) := direct_calls fuel cfg ar st cs acc in
